@@ -4,6 +4,6 @@ sid=$1; shift
 d=/var/tmp/seed_try_$sid
 rm -rf $d; rsync -a --exclude .git /repo/ $d/ && patch -s -p1 -d $d < /verif/seeded/$sid/patch.diff || exit 2
 for p in "$@"; do
-  VERIF_REPO=$d /verif/check $p 2>&1 | grep -E "^VIOLATION|^KNOWN-FINDING|\] tier|BROKEN" | cut -c1-300
+  VERIF_REPO=$d /verif/check $p > /var/tmp/seed_try_$sid.$p.log 2>&1 || rc=1; grep -E "^VIOLATION|^KNOWN-FINDING|\] tier|BROKEN" /var/tmp/seed_try_$sid.$p.log | cut -c1-300; rm -f /var/tmp/seed_try_$sid.$p.log
 done
-rm -rf $d
+rm -rf $d; exit ${rc:-0}
